@@ -1238,6 +1238,258 @@ def render_guards_plan():
     return "\n".join(GUARDS_HEADER) + "\n" + "\n\n".join(parts) + "\n"
 
 
+# ----------------------------------------------------------------------------
+# InMemoryStorage / OnDiskStorage get / put / delete / get_known_periods
+#   -> coq/gen/GuardsStorage.v
+# ----------------------------------------------------------------------------
+
+MEM = "openfisca_core/data_storage/in_memory_storage.py"
+DSK = "openfisca_core/data_storage/on_disk_storage.py"
+
+
+def _storage(rel, cls, attr, prefix, eternal_pos, put_payload, put_final, get_return):
+    tree = _parse(rel)
+    _require_import(tree, rel, "openfisca_core", "periods")
+    _require_import(tree, rel, "openfisca_core.periods", "DateUnit")
+    _no_rebinding(tree, rel, {"periods", "DateUnit", "str", "isinstance"})
+    cdef = [n for n in tree.body if isinstance(n, ast.ClassDef) and n.name == cls]
+    if len(cdef) != 1:
+        raise TranslationError(f"{rel}: class {cls} not found exactly once")
+    init = _func(tree, "__init__", cls=cls)
+    me = init.args.args[0].arg
+    if len(init.args.args) <= eternal_pos or init.args.args[eternal_pos].arg != "is_eternal":
+        raise TranslationError(f"{cls}.__init__: parameter {eternal_pos} is not is_eternal")
+    for want in (f"{me}.is_eternal = is_eternal", f"{me}.{attr} = {{}}"):
+        if not any(_is(n, want, mode="exec") for n in _body(init)):
+            raise TranslationError(f"{cls}.__init__: '{want}' not found")
+    for fn in cdef[0].body:
+        if isinstance(fn, ast.FunctionDef) and fn.name != "__init__":
+            for n in ast.walk(fn):
+                tg = (n.targets if isinstance(n, ast.Assign) else
+                      [n.target] if isinstance(n, (ast.AnnAssign, ast.AugAssign)) else [])
+                if any(isinstance(t, ast.Attribute) and t.attr == "is_eternal" for t in tg):
+                    raise TranslationError(f"{cls}.{fn.name}: is_eternal is assigned outside __init__")
+
+    def env_for(what, me, per):
+        return _Env(what, allowed=("is_eternal", "period_is_none"),
+                    bools={f"{me}.is_eternal": "is_eternal", f"{per} is None": "period_is_none"})
+
+    def key(stmts, what, me, per):
+        """[if <test>: period = periods.period(DateUnit.ETERNITY)]; period = periods.period(period)
+        -> (key_choice term, remaining statements)"""
+        term = "KGiven"
+        if (stmts and isinstance(stmts[0], ast.If) and not stmts[0].orelse and len(stmts[0].body) == 1
+                and _is(stmts[0].body[0], f"{per} = periods.period(DateUnit.ETERNITY)", mode="exec")):
+            term = f"if {_cond(stmts[0].test, env_for(what, me, per))} then KEternity else KGiven"
+            stmts = stmts[1:]
+        if not stmts or not _is(stmts[0], f"{per} = periods.period({per})", mode="exec"):
+            at = stmts[0] if stmts else None
+            raise TranslationError(f"{what}: expected '[if ...: {per} = periods.period(DateUnit.ETERNITY)]; "
+                                   f"{per} = periods.period({per})', got '{_line(at) if at is not None else 'nothing'}'")
+        return term, stmts[1:]
+
+    def expect(stmts, pats, what, b):
+        if len(stmts) != len(pats):
+            raise TranslationError(f"{what}: {len(stmts)} statements after the key, expected {len(pats)}")
+        for st, p in zip(stmts, pats):
+            if not _matches(p, st, b):
+                raise TranslationError(f"{_where(what, st)}: expected '{p.splitlines()[0]} ...', got '{_line(st)}'")
+
+    sig = "(is_eternal period_is_none : bool)"
+    out = []
+    # get
+    what = f"{cls}.get"
+    fn = _func(tree, "get", cls=cls)
+    a = fn.args
+    if len(a.args) != 2 or len(a.defaults) != 1 or not _is(a.defaults[0], "None") or a.vararg or a.kwarg or a.kwonlyargs:
+        raise TranslationError(f"{what}: signature changed ({_src(a)})")
+    me, per = a.args[0].arg, a.args[1].arg
+    term, rest = key(_body(fn), what, me, per)
+    expect(rest, [f"__b_values = {me}.{attr}.get({per})", "if __r_values is None:\n    return None", get_return.format(me=me)],
+           what, {})
+    out += [f"(* {what}: the key the value is read under *)",
+            f"Definition gen_{prefix}_get_key {sig} : key_choice :=\n  {term}."]
+    # put
+    what = f"{cls}.put"
+    fn = _func(tree, "put", cls=cls)
+    me, val, per = _params(fn, 3, what)
+    term, rest = key(_body(fn), what, me, per)
+    b = {"value": val}
+    expect(rest, [p.format(me=me, per=per) for p in put_payload] + [put_final.format(me=me, per=per, attr=attr)], what, b)
+    out += ["", f"(* {what}: the key the value is stored under *)",
+            f"Definition gen_{prefix}_put_key {sig} : key_choice :=\n  {term}."]
+    # delete
+    what = f"{cls}.delete"
+    fn = _func(tree, "delete", cls=cls)
+    a = fn.args
+    if len(a.args) != 2 or len(a.defaults) != 1 or not _is(a.defaults[0], "None") or a.vararg or a.kwarg or a.kwonlyargs:
+        raise TranslationError(f"{what}: signature changed ({_src(a)})")
+    me, per = a.args[0].arg, a.args[1].arg
+    stmts = _body(fn)
+    if not (stmts and isinstance(stmts[0], ast.If) and not stmts[0].orelse and len(stmts[0].body) == 2
+            and _is(stmts[0].body[0], f"{me}.{attr} = {{}}", mode="exec") and _is(stmts[0].body[1], "return", mode="exec")):
+        raise TranslationError(f"{what}: expected 'if <test>: {me}.{attr} = {{}}; return' first")
+    c_all = _cond(stmts[0].test, env_for(what, me, per))
+    term, rest = key(stmts[1:], what, me, per)
+    expect(rest, [f"{me}.{attr} = {{__b_item: __b_v for __b_item, __b_v in {me}.{attr}.items() "
+                  f"if not {per}.contains(__b_item)}}"], what, {})
+    out += ["", f"(* {what}: everything, or the entries whose period is contained in the (normalised) period *)",
+            f"Definition gen_{prefix}_delete {sig} : delete_rule :=\n"
+            f"  if {c_all} then DeleteAll\n  else DeleteContained ({term})."]
+    # get_known_periods
+    what = f"{cls}.get_known_periods"
+    fn = _func(tree, "get_known_periods", cls=cls)
+    (me,) = _params(fn, 1, what)
+    expect(_body(fn), [f"return {me}.{attr}.keys()"], what, {})
+    return "\n".join(out)
+
+
+def render_guards_storage():
+    mem = _storage(MEM, "InMemoryStorage", "_arrays", "memory", 1, [],
+                   "{me}.{attr}[{per}] = __r_value", "return __r_values")
+    dsk = _storage(DSK, "OnDiskStorage", "_files", "disk", 2,
+                   ["__b_filename = str({per})",
+                    '__b_path = os.path.join({me}.storage_dir, __r_filename) + ".npy"',
+                    "if isinstance(__r_value, EnumArray) and __r_value.possible_values is not None:\n"
+                    "    {me}._enums[{me}.storage_dir] = __r_value.possible_values\n"
+                    "    __r_value = __r_value.view(numpy.ndarray)",
+                    "if __r_value.dtype == object:\n    __r_value = __r_value.astype(str)",
+                    "numpy.save(__r_path, __r_value)"],
+                   "{me}.{attr}[{per}] = __r_path", "return {me}._decode_file(__r_values)")
+    return "\n".join(GUARDS_HEADER) + "\n" + mem + "\n\n" + dsk + "\n"
+
+
+# ----------------------------------------------------------------------------
+# Holder.get_array / put_in_cache / _set (store selection) / delete_arrays and the
+# construction of the two storages -> coq/gen/GuardsHolder.v
+# ----------------------------------------------------------------------------
+
+def render_guards_holder():
+    tree = _holder_tree()
+    ok = any(isinstance(n, ast.ImportFrom) and n.module == "openfisca_core" and n.level == 0
+             and any(a.name == "data_storage" and a.asname == "storage" for a in n.names) for n in tree.body)
+    if not ok:
+        raise TranslationError(f"{HOL}: 'from openfisca_core import data_storage as storage' not found")
+    _no_rebinding(tree, HOL, {"storage"})
+    cls = [n for n in tree.body if isinstance(n, ast.ClassDef) and n.name == "Holder"][0]
+    # both storages are built with is_eternal = self._eternal, everywhere in the class
+    n_mem = n_dsk = 0
+    for n in ast.walk(cls):
+        if isinstance(n, ast.Call) and _src(n.func) == "storage.InMemoryStorage":
+            n_mem += 1
+            if not _is(n, "storage.InMemoryStorage(is_eternal=self._eternal)"):
+                raise TranslationError(f"Holder: line {n.lineno}: '{_src(n)}' is not storage.InMemoryStorage(is_eternal=self._eternal)")
+        if isinstance(n, ast.Call) and _src(n.func) == "storage.OnDiskStorage":
+            n_dsk += 1
+            b = {}
+            if not _matches("storage.OnDiskStorage(__b_dir, self._eternal, preserve_storage_dir=__b_keep)", n, b, mode="eval"):
+                raise TranslationError(f"Holder: line {n.lineno}: '{_src(n)}' is not storage.OnDiskStorage(<dir>, self._eternal, preserve_storage_dir=<flag>)")
+    if n_mem < 1 or n_dsk < 1:
+        raise TranslationError("Holder: the construction of the memory / disk storage was not found")
+    init = _func(tree, "__init__", cls="Holder")
+    if not any(_is(n, "self._memory_storage = storage.InMemoryStorage(is_eternal=self._eternal)", mode="exec")
+               for n in _body(init)):
+        raise TranslationError("Holder.__init__: self._memory_storage is not the InMemoryStorage built with self._eternal")
+
+    out = []
+    # get_array
+    what = "Holder.get_array"
+    fn = _func(tree, "get_array", cls="Holder")
+    me, per = _params(fn, 2, what)
+    stmts = _body(fn)
+    bools = {f"{me}.variable.is_neutralized": "neutralized", f"{me}._disk_storage": "has_disk"}
+    srcs = {f"return {me}.default_array()": "GDefault", f"return {me}._disk_storage.get({per})": "GDisk",
+            "return None": "GNothing"}
+    lines, b = [], {}
+    for k, st in enumerate(stmts):
+        env = _Env(what, allowed=("neutralized", "memory_hit", "has_disk"), bools=bools)
+        if _matches(f"__b_value = {me}._memory_storage.get({per})", st, b):
+            if "value" in b and b["value"] in (me, per):
+                raise TranslationError(f"{_where(what, st)}: the memory lookup overwrites a parameter")
+            bools[f"{b['value']} is not None"] = "memory_hit"
+            srcs[f"return {b['value']}"] = "GMemory"
+            continue
+        body = st.body if isinstance(st, ast.If) and not st.orelse and len(st.body) == 1 else [st]
+        o = [v for p, v in srcs.items() if _is(body[0], p, mode="exec")]
+        if not o:
+            raise TranslationError(f"{_where(what, body[0])}: outcome '{_line(body[0])}' is not of a known form")
+        if isinstance(st, ast.If):
+            if k == len(stmts) - 1:
+                raise TranslationError(f"{what}: the last statement is conditional")
+            lines.append(f"  {'else if' if lines else 'if'} {_cond(st.test, env)} then {o[0]}")
+        elif k == len(stmts) - 1:
+            lines.append(f"  {'else ' if lines else ''}{o[0]}.")
+        else:
+            raise TranslationError(f"{_where(what, st)}: unconditional '{_line(st)}' before the end")
+    if "value" not in b:
+        raise TranslationError(f"{what}: the memory storage is not read")
+    out += ["(* Holder.get_array(period): where the answer comes from; memory_hit = the memory storage has a value *)",
+            "Definition gen_holder_get_array (neutralized memory_hit has_disk : bool) : get_source :="] + lines
+
+    # put_in_cache
+    what = "Holder.put_in_cache"
+    fn = _func(tree, "put_in_cache", cls="Holder")
+    me, val, per = _params(fn, 3, what)
+    env = _Env(what, allowed=("do_not_store", "opt_out_cache", "blacklist_nonempty", "name_in_blacklist"),
+               bools={f"{me}._do_not_store": "do_not_store", f"{me}.simulation.opt_out_cache": "opt_out_cache",
+                      f"{me}.simulation.tax_benefit_system.cache_blacklist": "blacklist_nonempty",
+                      f"{me}.variable.name in {me}.simulation.tax_benefit_system.cache_blacklist": "name_in_blacklist"})
+    stmts = _body(fn)
+    lines = []
+    for k, st in enumerate(stmts):
+        if k == len(stmts) - 1:
+            if not _is(st, f"{me}._set({per}, {val})", mode="exec"):
+                raise TranslationError(f"{_where(what, st)}: expected '{me}._set({per}, {val})' last, got '{_line(st)}'")
+            lines.append(f"  {'else ' if lines else ''}PSet.")
+        elif (isinstance(st, ast.If) and not st.orelse and len(st.body) == 1 and _is(st.body[0], "return", mode="exec")):
+            lines.append(f"  {'else if' if lines else 'if'} {_cond(st.test, env)} then PSkip")
+        else:
+            raise TranslationError(f"{_where(what, st)}: statement '{_line(st)}' is not 'if <test>: return'")
+    out += ["", "(* Holder.put_in_cache(value, period) *)",
+            "Definition gen_holder_put_in_cache (do_not_store opt_out_cache blacklist_nonempty name_in_blacklist : bool) "
+            ": put_outcome :="] + lines
+
+    # _set: which storage (the guards before are in GuardsInput.v)
+    what = "Holder._set"
+    fn = _func(tree, "_set", cls="Holder")
+    me, per, val = _params(fn, 3, what)
+    stmts = _body(fn)
+    if len(stmts) < 2:
+        raise TranslationError(f"{what}: body too short")
+    b = {}
+    sel, fin = stmts[-2], stmts[-1]
+    if not (isinstance(sel, ast.Assign) and len(sel.targets) == 1 and isinstance(sel.targets[0], ast.Name)
+            and sel.targets[0].id not in (me, per, val)):
+        raise TranslationError(f"{_where(what, sel)}: expected '<flag> = <store selection>' before the storage, got '{_line(sel)}'")
+    flag = sel.targets[0].id
+    env = _Env(what, allowed=("on_disk_storable", "memory_has_value", "memory_pressure"),
+               bools={f"{me}._on_disk_storable": "on_disk_storable",
+                      f"{me}._memory_storage.get({per}) is None": "(negb memory_has_value)",
+                      f"psutil.virtual_memory().percent >= {me}.simulation.memory_config.max_memory_occupation_pc":
+                          "memory_pressure"})
+    env.allowed.add("(negb memory_has_value)")
+    c = _cond(sel.value, env)
+    want = (f"if {flag}:\n    {me}._disk_storage.put({val}, {per})\nelse:\n    {me}._memory_storage.put({val}, {per})")
+    if not _is(fin, want, mode="exec"):
+        raise TranslationError(f"{_where(what, fin)}: expected 'if {flag}: disk put else: memory put', got '{_line(fin)}'")
+    out += ["", "(* Holder._set: which storage receives the array *)",
+            "Definition gen_holder_store_choice (on_disk_storable memory_has_value memory_pressure : bool) : store_choice :=",
+            f"  if {c} then StDisk else StMemory."]
+
+    # delete_arrays: both storages, same argument
+    what = "Holder.delete_arrays"
+    fn = _func(tree, "delete_arrays", cls="Holder")
+    a = fn.args
+    if len(a.args) != 2 or len(a.defaults) != 1 or not _is(a.defaults[0], "None"):
+        raise TranslationError(f"{what}: signature changed ({_src(a)})")
+    me, per = a.args[0].arg, a.args[1].arg
+    want = [f"{me}._memory_storage.delete({per})", f"if {me}._disk_storage:\n    {me}._disk_storage.delete({per})"]
+    stmts = _body(fn)
+    if len(stmts) != 2 or not all(_is(x, w, mode="exec") for x, w in zip(stmts, want)):
+        raise TranslationError(f"{what}: expected the deletion in the memory storage, then in the disk storage if any")
+    return "\n".join(GUARDS_HEADER) + "\n" + "\n".join(out) + "\n"
+
+
 def render_guards():
     parts = [guard_check_consistency(), guard_add(), guard_divide(), guard_dispatch()]
     return "\n".join(GUARDS_HEADER) + "\n" + "\n\n".join(parts) + "\n"
@@ -1297,6 +1549,8 @@ GENERATED = [
     ("GuardsPeriod.v", lambda: render_guards_period()),    # Period.get_subperiods    (props/C04.v)
     ("GuardsInput.v", lambda: render_guards_input()),      # set_input routing        (props/C16.v, C18.v)
     ("GuardsPlan.v", lambda: render_guards_plan()),        # order of the evaluator   (props/C18.v)
+    ("GuardsStorage.v", lambda: render_guards_storage()),  # memory / disk storages   (props/C17.v)
+    ("GuardsHolder.v", lambda: render_guards_holder()),    # holder: where values live (props/C17.v)
 ]
 
 
